@@ -201,7 +201,7 @@ class Region(object):
                 for p in pd[d]:
                     pd[d+1].update(set((4*p, 4*p+1, 4*p+2, 4*p+3)))
                 pd[d] = set()  # clear the pixels from this level
-            self.demoted = pd[d+1]
+            self.demoted = pd[self.maxdepth]
         return
 
     def _renorm(self):
